@@ -39,6 +39,14 @@ def lookup(path, info):
             return a_from_id          # lossless integer widening
     if re.match(r"^<(std|core|alloc)::[^ ]+( as|<.*> as) std::clone::Clone>::clone$", path) or re.match(r"^core::clone::impls::<impl std::clone::Clone for [\w&]+>::clone$", path):
         return a_clone_value      # Clone of a std value type yields an equal value
+    m = re.match(r"^(?:<&?(\w+) as std::ops::(Add|Sub|Mul)<&?(\w+)>>|core::ops::arith::<impl std::ops::(Add|Sub|Mul)<&?(\w+)> for &?(\w+)>)::(add|sub|mul)$", path)
+    if m:
+        g = m.groups()
+        ity = g[0] or g[5]
+        other = g[2] or g[4]
+        if ity in solver.INT_RANGES and other == ity:
+            op = g[6]
+            return lambda ev, st, info, args, op=op, ity=ity: int_arith_by_ref(ev, st, info, args, op, ity)
     m = re.match(r".*<impl std::convert::TryFrom<(\w+)> for (\w+)>::try_from$", path)
     if m and m.group(1) in solver.INT_RANGES and m.group(2) in solver.INT_RANGES:
         dst = m.group(2)
@@ -458,6 +466,18 @@ def pred_seq(name, a, b):
         return T.TRUE if r else T.FALSE
     if b[0] == 'bytes' and len(b[1]) == 0:
         return T.TRUE
+    if b[0] == 'bytes':
+        # a sequence with a constant head (tail) at least as long as b decides the predicate
+        ca = T.canon_seq(a)
+        parts = list(ca[1]) if ca[0] == 'concat' else [ca]
+        const = b''
+        for p_ in (parts if name == 'starts_with' else reversed(parts)):
+            if p_[0] != 'bytes':
+                break
+            const = const + p_[1] if name == 'starts_with' else p_[1] + const
+        if len(const) >= len(b[1]):
+            r = const.startswith(b[1]) if name == 'starts_with' else const.endswith(b[1])
+            return T.TRUE if r else T.FALSE
     return ('call', name, (a, b))
 
 
@@ -791,6 +811,32 @@ def a_find_item(ev, st, info, args):
                         outs.append((s4, some(item)))
                     else:
                         work.append((s4, nxt, n + 1))
+    return outs
+
+
+@ax('std::iter::Iterator::all', note='all(p) consumes items up to and including the first one failing p (false), or all of them (true)')
+def a_all(ev, st, info, args):
+    it = ev.deref(args[0], st)
+    if not is_iter(it) or iter_bound(it) is None:
+        return [(st, ('opaque', 'all on an iterator without a small constant bound'))]
+    outs = []
+    work = [(st, it)]
+    while work:
+        s1, cur = work.pop()
+        for s2, nxt, item in iter_step(ev, s1, cur):
+            if item is None:
+                s2 = s2.copy() if s2 is s1 else s2
+                write_ref(ev, s2, info, args[0], nxt)
+                outs.append((s2, T.TRUE))
+                continue
+            for s3, cond in ev.apply_closure(args[1], [item], s2, info['fr'], info['site']):
+                for s4, v in fork_bool(s3, cond):
+                    if v:
+                        work.append((s4, nxt))
+                    else:
+                        s4 = s4.copy() if s4 is s1 else s4
+                        write_ref(ev, s4, info, args[0], nxt)
+                        outs.append((s4, T.FALSE))
     return outs
 
 
@@ -1347,6 +1393,25 @@ def a_is_some_and(ev, st, info, args):
     return outs
 
 
+def int_arith_by_ref(ev, st, info, args, op, ity):
+    """a + &b etc. on integers: the operator impls for reference operands forward to the primitive operation (overflow panics when overflow checks are on)"""
+    a, b = (ev.deref(x, st) if x[0] == 'ref' else x for x in args[:2])
+    v = {'add': T.add, 'sub': T.sub, 'mul': T.mul}[op](a, b)
+    if ev.facts.raw.get('overflow_checks', True):
+        if not oblige(st, info, 'overflow', ev.int_range_cond(v, ity), '%s on %s' % (op, ity)):
+            return []
+        return [(st, v)]
+    outs = []
+    for s2, val in fork_bool(st, ev.int_range_cond(v, ity)):
+        outs.append((s2, v if val else ('call', 'wrapping_' + op, (a, b))))
+    return outs
+
+
+@ax('std::convert::identity', note='identity(x) = x')
+def a_identity(ev, st, info, args):
+    return [(st, args[0])]
+
+
 def a_clone_value(ev, st, info, args):
     v = args[0]
     if v[0] == 'ref':
@@ -1808,6 +1873,15 @@ def ipv6(seq):
 @ax('std::net::Ipv4Addr::new', note='Ipv4Addr::new(a,b,c,d) has octets [a,b,c,d]')
 def a_ipv4_new(ev, st, info, args):
     return [(st, ipv4(('arr', tuple(args))))]
+
+
+@ax('<std::net::Ipv4Addr as std::convert::From<u32>>::from', 'std::net::Ipv4Addr::from_bits',
+    '<std::net::Ipv6Addr as std::convert::From<u128>>::from', 'std::net::Ipv6Addr::from_bits',
+    note='Ipv4Addr::from(u32) / Ipv6Addr::from(u128) / from_bits: the address whose octets are the big-endian bytes of the integer; total')
+def a_ip_from_bits(ev, st, info, args):
+    v6 = 'Ipv6' in (info['c'].get('rpath') or info['c']['path'])
+    seq = T.mk_tobytes('tobe', 16 if v6 else 4, args[0])
+    return [(st, ipv6(seq) if v6 else ipv4(seq))]
 
 
 @ax('std::net::Ipv6Addr::new', note='Ipv6Addr::new(a..h) has octets a.to_be_bytes() ++ .. ++ h.to_be_bytes()')
